@@ -40,12 +40,15 @@ def gen_comp_spec(rng):
             setup.add(i)
             sp["fns"][nd["fn"]]["setup"] = True
     # tags: unique and shared
+    idp = S.node_ids(sp)
     for i, nd in enumerate(sp["nodes"]):
         r = rng.random()
         if r < 0.2:
             nd["tag"] = "u%d" % i
         elif r < 0.3:
             nd["tag"] = "shared"
+        elif r < 0.4 and len(idp) > 1:
+            nd["tag"] = rng.choice([x for k, x in enumerate(idp) if k != i])  # spelled like ANOTHER node's id: a tag wins
     sp["is_async"] = rng.random() < 0.25
     return sp, setup
 
@@ -126,7 +129,7 @@ def comp_case(col, rng, cidx, jobref=None):
                 if sum(1 for m in sp["nodes"] if m.get("tag") == t) > 1:
                     ambiguous = True
                 return t
-            if r < 0.7:
+            if r < 0.7 and not any(m.get("tag") == ids[i] for m in sp["nodes"]):
                 return ids[i]
             return d.get_node_by_id(ids[i])
 
